@@ -179,6 +179,9 @@ def opaque_contains(ex, container, item):
 
 
 def opaque_binop(ex, op, a, b):
+    h = ex.cfg.lib_overrides.get(("binop", (a if isinstance(a, VOpaque) else b).kind))
+    if h is not None:
+        return h(ex, op, a, b)
     raise Unsupported(f"operator on boundary objects {a!r}, {b!r}")
 
 
@@ -1160,3 +1163,43 @@ def _product(ex, args, kwargs, fr):
     import itertools
     lists = [ex.iterate(a, fr) for a in args]
     return ex.st.alloc(HList([VTuple(list(t)) for t in itertools.product(*lists)]))
+
+
+def arr_unary(ex, what, v):
+    from . import arrays
+    return arrays.arr_unary(ex, what, v)
+
+
+def arr_compare(ex, op, a, b):
+    from . import arrays
+    return arrays.arr_compare(ex, op, a, b)
+
+
+def arr_binop(ex, op, a, b):
+    from . import arrays
+    return arrays.arr_binop(ex, op, a, b)
+
+
+def arr_inplace(ex, op, cur, val):
+    from . import arrays
+    return arrays.arr_inplace(ex, op, cur, val)
+
+
+def arr_getitem(ex, obj, idx):
+    from . import arrays
+    return arrays.arr_getitem(ex, obj, idx)
+
+
+def arr_setitem(ex, obj, idx, val):
+    from . import arrays
+    return arrays.arr_setitem(ex, obj, idx, val)
+
+
+def arr_iterate(ex, v):
+    from . import arrays
+    return arrays.arr_iterate(ex, v)
+
+
+def dtype_eq(ex, a, b):
+    from . import arrays
+    return arrays.dtype_eq(ex, a, b)
